@@ -845,7 +845,11 @@ func (r *runner) execCase(c *Ctx, m *channel.StateMachine, init Snap, ops []Op, 
 			unreachable := (signingPhases[before.Phase] && before.Staging.State == nil) ||
 				(before.Phase >= channel.Funding && before.Current.State == nil) ||
 				(before.Phase < channel.Funding && (o.Kind == "CheckUpdate" || o.Kind == "Update"))
-			byDesign := c.Kind == "mock" || (c.Kind == "pay" && (o.S != nil && !channel.IsNoData(o.S.Data) || o.Data != nil && !channel.IsNoData(o.Data)))
+			// ... or the current state has another participant dimension than the channel, which only
+			// the unchecked ForceUpdate / SetProgressed can bring about (the payment app then indexes the
+			// new balances with the old dimensions)
+			oddCurrent := before.Current.State != nil && before.Current.State.NumParts() != c.N
+			byDesign := c.Kind == "mock" || (c.Kind == "pay" && (oddCurrent || o.S != nil && !channel.IsNoData(o.S.Data) || o.Data != nil && !channel.IsNoData(o.Data)))
 			if out == "PANIC" && !unreachable && !byDesign && o.Idx < c.N {
 				fail("operation panicked")
 			}
@@ -1212,13 +1216,13 @@ func Run(prop string) func(seed int64, tier, out string) {
 				states += s
 				transitions += t
 			}
-			r.sequences(2000, 400, 25)
+			r.sequences(1200, 300, 25)
 		case tier == "quick":
 			r.sequences(400, 60, 25)
 		default:
 			s, t := r.exhaustive(2, 1, "pay", perFile)
 			states, transitions = s, t
-			r.sequences(4000, 400, 25)
+			r.sequences(1500, 300, 25)
 		}
 		res.Rule = "T2: every abstract machine state (12 phases x staging {none, (final?, signature mask)} x current {none, signed, signed final, progressed}) built in the real code with RestoreStateMachine, one step of every operation class; " +
 			"T1: random operation sequences from fresh machines (65% phase-appropriate, 35% arbitrary operations; signatures valid / other signer / other state / replayed / foreign key / junk; candidates violating exactly one condition). " +
